@@ -69,9 +69,17 @@ Spec == Init /\ [][Next]_vars
 
 -----------------------------------------------------------------------------
 IsPrefix(a, b) == Len(a) <= Len(b) /\ SubSeq(b, 1, Len(a)) = a
-PrefixOk == IsPrefix(delivered, Expected(S)) /\ IsPrefix(notified, ExpectedNotifs(S))
+\* notifications are additionally OFFERED on a bounded stream (NotifyBuffer slots, send_nowait):
+\* what is seen there is an in-order selection of the notifications, complete whenever the
+\* consumer keeps up (never more than NotifyBuffer of them outstanding)
+NotifyBuffer == 100
+\* line indices are distinct and increasing, so "in-order selection" is: increasing and drawn from b
+IsSubSeqOf(a, b) == /\ \A i \in 1..(Len(a) - 1) : a[i] < a[i + 1]
+                    /\ {a[i] : i \in DOMAIN a} \subseteq {b[i] : i \in DOMAIN b}
+NotifiedOk(s) == IF Len(ExpectedNotifs(s)) <= NotifyBuffer THEN IsPrefix(notified, ExpectedNotifs(s)) ELSE IsSubSeqOf(notified, ExpectedNotifs(s))
+PrefixOk == IsPrefix(delivered, Expected(S)) /\ NotifiedOk(S)
 \* everything the child wrote and terminated has been delivered once the bytes are read
-CompleteAtEnd == pos = S.len => delivered = Expected(S) /\ notified = ExpectedNotifs(S)
+CompleteAtEnd == pos = S.len => delivered = Expected(S) /\ (Len(ExpectedNotifs(S)) <= NotifyBuffer => notified = ExpectedNotifs(S))
 ReaderSurvives == alive
 \* at every moment: exactly the well-formed lines terminated so far, whatever the cuts
 ChunkIndependent == alive => delivered = Keep(LinesIn(S, 1, 0, pos), S.wf)
